@@ -349,7 +349,7 @@ def ui_subitem(a: int, b: int, c: int, f: bool, g: bool, p: bytes, s: bytes, ule
 # ---------------------------------------------------------------------------------------------
 # 3b. long variable fields: the 16-bit length fields at their sign / width boundaries
 # ---------------------------------------------------------------------------------------------
-BIG_LENS = tier([32761, 32762, 65000], [127, 128, 255, 256, 32761, 32762, 32763, 32767, 32768, 65000, 65521])
+BIG_LENS = tier([32761, 32762, 65000], [127, 128, 255, 256, 32761, 32762, 32763, 32767, 32768, 65000, 65400])   # the User Information item around it must still fit 16 bits
 
 
 @harness(
